@@ -192,6 +192,17 @@ def _impl(tier, seed, search):
                 if got != ('kind', 'ndarray'): L.fail('documented:UnitDualQuaternion*vector', f'UnitDualQuaternion * 3-vector is documented to return a point but returned {got}', inp, observed=got)
             except Exception as e:
                 L.fail('documented:UnitDualQuaternion*vector', f'UnitDualQuaternion * 3-vector raised {type(e).__name__}', inp, observed=type(e).__name__)
+        # pose * something that is not a point / points array / pose / scalar: must raise, for lists and tuples as for arrays
+        for c in POSE:
+            d_ = 2 if c in ('SO2', 'SE2') else 3
+            bads = [[1.0] * (d_ + 1), tuple([1.0] * (d_ + 2)), [], [[1.0, 2.0], [3.0]], np.ones(d_ + 1), 'abc', {'a': 1}, None]
+            for m in (1, 2):
+                for bad in bads:
+                    inp = dict(cls=c, op='*', right=repr(bad)[:40], len=m)
+                    L.count('pose*junk', key=(c, repr(bad)[:20], m)); L.sample('pose*junk', inp)
+                    try: got = classify(mk(c, m) * bad)
+                    except Exception: continue
+                    L.fail(f'must-raise:{c}*non-conforming', f'{c} * {bad!r} must raise but returned {got}', inp, observed=got, required='exception')
         # == and != within one class: booleans (a list for sequences), never raising
         for c in POSE + QUAT + ['Twist2', 'Twist3', 'Plucker']:
             for m in (1, 2):
@@ -200,7 +211,7 @@ def _impl(tier, seed, search):
                     inp = dict(cls=c, op=opn, len=m)
                     L.count('eq', key=(c, opn, m)); L.sample('eq', inp)
                     try:
-                        X = mk(c, m); x = f(X, X)
+                        X = mk(c, m); x = f(X, X)      # the same object on both sides: still one boolean per value
                     except Exception as e:
                         L.fail(f'eq-raises:{c}:{opn}:{"single" if m == 1 else "multi"}', f'{c} {opn} {c} (len {m}) raised {type(e).__name__}', inp, observed=type(e).__name__); continue
                     good = isinstance(x, (bool, np.bool_)) if m == 1 else (isinstance(x, list) and len(x) == m and all(isinstance(b_, (bool, np.bool_)) for b_ in x))
